@@ -86,6 +86,19 @@ func storeContent(spec string) ([]byte, bool) {
 		}
 		seed, _ := strconv.ParseUint(p[1], 10, 64)
 		return storeRandBytes(seed, atoi(p[0])), true
+	case 'c': // composite: c<part>+<part>+…, parts z<n> | t<n> | r<n>.<seed>
+		var out []byte
+		for _, ps := range strings.Split(spec[1:], "+") {
+			if ps == "" || !strings.ContainsRune("ztr", rune(ps[0])) {
+				return nil, false
+			}
+			b, ok := storeContent(ps)
+			if !ok {
+				return nil, false
+			}
+			out = append(out, b...)
+		}
+		return out, true
 	case 'x':
 		out := make([]byte, len(spec[1:])/2)
 		for i := range out {
@@ -182,7 +195,20 @@ func storeAlter(f []byte, kind string) ([]byte, bool) {
 		}
 		return append([]byte{}, f[:n]...)
 	}
+	// the last sealed block of the file (pieces of blockSize + overhead; sizes as the oracle has them from the source)
+	enc := c09Fmt().blockSize + c09Fmt().overhead
+	lastLen := 0
+	if body > 0 {
+		lastLen = (body-1)%enc + 1
+	}
 	switch {
+	case kind == "bt":
+		if lastLen == 0 {
+			return append([]byte{}, f...), true
+		}
+		return flip(len(f) - lastLen), true
+	case kind == "cm":
+		return take(len(f) - lastLen/2), true
 	case kind == "bf":
 		return flip(hl + ns), true
 	case kind == "bm":
@@ -358,6 +384,29 @@ func genStoreContent(r *Rng, st *Stats) string {
 
 func genStore(r *Rng, n int, w io.Writer, st *Stats) {
 	for i := 0; i < n; i++ {
+		if (i < 2000 && r.Chance(1, 50)) || (i >= 2000 && r.Chance(1, 300)) { // these lines are large (0.5 s each on the model side)
+			// a content whose sealed block `good` starts exactly where an LZ4 data block starts (o_store_aligned.go),
+			// then damage inside the LAST sealed block (a later block): the model answers err:corrupt
+			// (C09.alteration_detected_partial); a reader that handed the decrypt failure to the LZ4 reader as a
+			// plain end of data would answer with a strict prefix
+			good := Pick(r, []int{1, 1, 1, 2, 2, 3})
+			layout := r.Intn(len(c09AlignedLayouts))
+			tail := 70000 + r.Intn(250000)
+			if parts, _, _, ok := c09AlignedBuild(uint64(1+r.Intn(1000)), good, layout, tail); ok {
+				alt := Pick(r, []string{"bl", "bt", "cm", fmt.Sprintf("ct%d", r.Range(1, 16)), fmt.Sprintf("ap%d", r.Range(1, 20))})
+				id := r.Range(1, 4)
+				ops := []string{fmt.Sprintf("S%d=%s", id, c09PartsSpec(parts))}
+				if r.Chance(1, 3) {
+					ops = append(ops, fmt.Sprintf("G%d", id))
+				}
+				ops = append(ops, fmt.Sprintf("X%d:%s", id, alt), fmt.Sprintf("G%d", id), "L")
+				st.Inc(fmt.Sprintf("store.aligned.good=%d", good))
+				st.Inc("store.aligned.alter." + strings.TrimRight(alt, "0123456789"))
+				fmt.Fprintf(w, "store %s\n", strings.Join(ops, ";"))
+				continue
+			}
+			st.Inc("store.aligned.construction-failed")
+		}
 		nops := r.Range(3, 12)
 		var ops []string
 		stored := map[int]bool{}
@@ -405,7 +454,11 @@ func genStore(r *Rng, n int, w io.Writer, st *Stats) {
 				st.Inc("store.op.rekey")
 			default:
 				kind := ""
-				switch x := r.Intn(12); x {
+				switch x := r.Intn(14); x {
+				case 12:
+					kind = "bt"
+				case 13:
+					kind = "cm"
 				case 0:
 					kind = fmt.Sprintf("h%d", r.Intn(storeHeaderLen))
 				case 1:
